@@ -253,6 +253,56 @@ theorem C12_udp_batch_fits (e : Enc) (ev : UEv) (h : e.batch.length ≤ halfFull
       · simp only [Bool.false_eq_true, if_false]; rw [flush_batch]; exact Nat.zero_le _
       · rename_i hh; exact Nat.le_of_not_lt hh
 
+/-! ## SOCKS5 UDP-ASSOCIATE tunnel codec (`udpTunnelConn.SendPacket` / `ReceivePacket`) -/
+
+/-- **Main theorem for the listen-side codec.** For all datagram sequences (each at most 65535 bytes, empty
+ones included), EVERY partition of the stream into reads — in particular several length-prefixed records
+coalesced into one read, as the peer's batching `iocopy.UDP` sends them —, every cut offset and both
+endings: the bytes `SendPacket` writes are the encoding, and the receive loop returns exactly the datagrams
+complete before the cut, with their boundaries, contents and order, then fails in the read the cut falls
+into — never by running out of iterations. This is `holdsS5` on the model the driver runs. -/
+theorem C12_s5 (ds : List Bytes) (cut : Nat) (chunks : List Bytes) (tail : Tail)
+    (hflat : chunks.flatten = ((ds.map sendPacket).flatten.flatten).take cut) :
+    holdsS5 ds cut ((ds.map sendPacket).flatten.flatten)
+      (recvAll ((((ds.map sendPacket).flatten.flatten).take cut).length + 1) ⟨chunks, tail⟩) = true := by
+  unfold holdsS5
+  cases hwf : ds.all wfS5 with
+  | false => rfl
+  | true =>
+    rw [recvAll_flat]
+    have hfl : (⟨chunks, tail⟩ : Src).flat = (encodeAll ds).take cut := by
+      simp only [Src.flat]; rw [hflat, sendPacket_wire]
+    rw [hfl, sendPacket_wire, parseS5_cut ds hwf cut _ (Nat.lt_succ_self _)]
+    simp
+
+/-- **Read-partition independence**: two partitions of the same bytes give the same datagrams and the same
+ending — one record per read, records split across reads, or several records in one read. -/
+theorem C12_s5_chunk_independent (f : Nat) (s₁ s₂ : Src) (h : s₁.flat = s₂.flat) : recvAll f s₁ = recvAll f s₂ := by
+  rw [recvAll_flat, recvAll_flat, h]
+
+/-- **Round trip and termination**: an uncut burst comes back whole and the loop then stops at a record
+boundary in the prefix read. -/
+theorem C12_s5_roundtrip (ds : List Bytes) (hwf : ds.all wfS5 = true) (chunks : List Bytes) (tail : Tail)
+    (hflat : chunks.flatten = encodeAll ds) :
+    recvAll ((encodeAll ds).length + 1) ⟨chunks, tail⟩ = ⟨ds, .len⟩ := by
+  rw [recvAll_flat]
+  have hfl : (⟨chunks, tail⟩ : Src).flat = (encodeAll ds).take (encodeAll ds).length := by
+    simp only [Src.flat]; rw [hflat, List.take_length]
+  have := parseS5_cut ds hwf (encodeAll ds).length ((encodeAll ds).length + 1) (by rw [List.take_length]; omega)
+  rw [hfl, this, completeBefore_all ds _ (Nat.le_refl _)]
+  congr 1
+  -- the stage at the very end of the stream is the prefix read
+  clear this hfl hflat
+  induction ds with
+  | nil => rfl
+  | cons d ds ih =>
+    have hds : ds.all wfS5 = true := by simp at hwf ⊢; exact hwf.2
+    rw [encodeAll_cons, List.length_append, encode1_length]
+    simp only [cutStage]
+    rw [if_pos (by omega)]
+    have : 2 + d.length + (encodeAll ds).length - (2 + d.length) = (encodeAll ds).length := by omega
+    rw [this]; exact ih hds
+
 /-! ## The two defects of the code as found (repaired in the worktree; kept as witnesses) -/
 
 /-- C12-a as found: the tunnel ends inside a record (`00 05 'a' 'b'`, then EOF) — the loop re-reads
@@ -298,6 +348,13 @@ example :
 /-- `holdsTcp` is not trivially true: an observation that lost a byte fails it. -/
 example : holdsTcp ⟨[[1, 2]], .eof, false, none, false, .cw⟩ ⟨[], .eof, false, none, false, .same⟩
     ⟨true, [1], [], false, false, false, true, true, true, 1, 0, .none, .none⟩ = false := by decide
+
+/-- Three datagrams (one empty) coalesced into ONE read, then a read holding the tail of the third: all come
+out; and `holdsS5` rejects an observation in which the record that shared a read with its predecessor is lost. -/
+example :
+    recvAll 12 ⟨[[0, 1, 97, 0, 0, 0, 2, 98], [99]], .eof⟩ = ⟨[[97], [], [98, 99]], .len⟩ ∧
+    [[0, 1, 97, 0, 0, 0, 2, 98], [99]].flatten = (([[97], [], [98, 99]] : List Bytes).map sendPacket).flatten.flatten.take 100 ∧
+    holdsS5 [[97], [], [98, 99]] 100 [0, 1, 97, 0, 0, 0, 2, 98, 99] ⟨[[97]], .len⟩ = false := by decide
 
 /-- `holdsUdp` is not trivially true: a relay that dropped the datagram before the cut fails it. -/
 example : holdsUdp ⟨[], .hold, [[97]], 3, [], .eof, false⟩ ⟨true, [], [], 0, false, false, 0, 0⟩ = false := by decide
